@@ -11,6 +11,11 @@ import NurbsVerif.Lemmas.RatSurfDersModel
 import NurbsVerif.Lemmas.SurfDerivRat
 import NurbsVerif.Lemmas.SurfDerivWitness
 import NurbsVerif.Lemmas.A23Final
+import NurbsVerif.Lemmas.SurfLoopsTrue
+import NurbsVerif.Lemmas.Hodograph
+import NurbsVerif.Lemmas.HodographTangent
+import NurbsVerif.Lemmas.HodographSurfAll
+import NurbsVerif.Lemmas.HodographWitness
 
 /-!
 # C02  Derivatives returned are the true derivatives of the shape  (statements so far)
@@ -23,6 +28,14 @@ Surfaces: every mixed order (`surface_derivatives_are_true_mixed_derivatives`; t
 lives in Mathlib's `F[X][Y]`, inner indeterminate = `u`, outer = `v`), A4.4
 (`rational_surface_derivatives_leibniz`, `…_of_true_derivatives`, uniqueness of the solution).
 Normal / normalisation: `normal_orthogonal_to_tangents`, `normalized_vector_has_unit_length`.
+Evaluators as coded (loop by loop; models of `Model/SurfDersLoops.lean`, each compared with the real function by its
+own stream): A3.2 `a32_as_coded_is_true_derivative`; A3.6 `a36_as_coded_is_the_tensor_formula`,
+`a36_as_coded_is_true_mixed_derivative`, `rational_surface_derivatives_as_coded_leibniz`; A3.7 `a37_as_coded_assigns_what_a38_reads`; A3.7 + A3.8
+`a38_as_coded_is_the_triangular_table`, `a38_as_coded_is_true_mixed_derivative`, `a38_as_coded_rest_zero`.
+Hodographs (`Model/Hodograph.lean`): `hodograph_curve_is_first_derivative`, `hodograph_curve_span_is_shifted`,
+`hodograph_curve_evaluated_is_first_derivative`, `hodograph_surfaces_are_partial_derivatives`; tangent / normal:
+`tangent_curve_is_point_and_first_derivative`, `tangent_surface_is_point_and_partials`,
+`normal_surface_is_cross_product_of_partials`.
 -/
 namespace C02
 open Geomdl Blossom Polynomial
@@ -251,6 +264,201 @@ theorem normalized_vector_has_unit_length (v n : List F) (mag : F)
     Lin.normSq n = 1 ∧ 0 < mag ∧ n = v.map (fun x => x / mag) :=
   ⟨Lin.vectorNormalize_unit v n mag hmag h, Lin.vectorNormalize_parallel v n mag h⟩
 
+/-! ### the derivative evaluators as coded, loop by loop -/
+
+/-- **A3.2 as coded** (`CurveEvaluator.derivatives`, model `curveDersA32`: `CK` initialised with zero vectors,
+    the loop over `k ≤ min(degree, order)` and `j ≤ degree` accumulating `bfunsders[k][j] * ctrlpts[span - degree + j]`
+    with the table returned by A2.3 as coded; compared with the real method by the stream `cders32`): entry `k`,
+    coordinate `j`, is the `k`-th derivative of the span polynomial at `u` for every `k ≤ order` (zero above the
+    degree) – the same value as the A3.3/A3.4 family (`curve_derivatives_are_true_derivatives`). -/
+theorem a32_as_coded_is_true_derivative (p : ℕ) (U : ℕ → F) (P : List (List F)) (κ : ℕ) (u : F) (d j order k : ℕ)
+    (hp : p ≤ κ) (hκ : κ < P.length) (hP : NetOk d P)
+    (hm : Monotone U) (hspan : U κ < U (κ+1)) (hk : k ≤ order) :
+    ((curveDersA32 p U P κ u order).getD k []).getD j 0 = eval u (derivative^[k] (spanPoly p U P κ j)) :=
+  curveDersA32_true p U P κ u d j order k hp hκ hP hm hspan hk
+
+/-- **A3.6 as coded is the tensor formula** (`SurfaceEvaluator.derivatives`, model `surfaceDersA36`: for every
+    `k ≤ d[0]` the array `temp[s] = Σ_r basisdrv[0][k][r] · P[..]` filled in place, then `SKL[k][l] += basisdrv[1][l][s] · temp[s]`
+    for `l ≤ dd = min(deriv_order, d[1])` as the code has it; the two tables are those of A2.3 as coded; stream
+    `sders36`): on every span pair inside a well-formed net the returned table is exactly `surfaceDersAt … false` –
+    all `k ≤ min(pu, order)`, `l ≤ min(pv, order)` are filled, everything else keeps the zero vector. -/
+theorem a36_as_coded_is_the_tensor_formula (pu pv : ℕ) (Uu Uv : ℕ → F) (su sv : ℕ) (P : List (List F))
+    (κu κv : ℕ) (u v : F) (d order : ℕ) (hpu : pu ≤ κu) (hpv : pv ≤ κv) (hκu : κu < su) (hκv : κv < sv)
+    (hlen : P.length = su * sv) (hP : NetOk d P) :
+    surfaceDersA36 pu pv Uu Uv sv P κu κv u v order = surfaceDersAt pu pv Uu Uv sv P κu κv u v order false :=
+  surfaceDersA36_eq pu pv Uu Uv su sv P κu κv u v d order hpu hpv hκu hκv hlen hP
+
+/-- … hence every entry `[k][l]`, `k, l ≤ order`, returned by A3.6 as coded is the true mixed partial derivative
+    `∂ᵏ/∂uᵏ ∂ˡ/∂vˡ` of the bivariate span polynomial at `(u, v)`. -/
+theorem a36_as_coded_is_true_mixed_derivative (pu pv : ℕ) (Uu Uv : ℕ → F) (su sv : ℕ) (P : List (List F))
+    (κu κv : ℕ) (u v : F) (d j order k l : ℕ)
+    (hpu : pu ≤ κu) (hpv : pv ≤ κv) (hκu : κu < su) (hκv : κv < sv) (hlen : P.length = su * sv) (hP : NetOk d P)
+    (hmu : Monotone Uu) (hmv : Monotone Uv) (hspu : Uu κu < Uu (κu+1)) (hspv : Uv κv < Uv (κv+1))
+    (hk : k ≤ order) (hl : l ≤ order) :
+    (((surfaceDersA36 pu pv Uu Uv sv P κu κv u v order).getD k []).getD l []).getD j 0
+      = (pderivU^[k] (pderivV^[l] (surfSpanPoly pu pv Uu Uv sv P κu κv j))).evalEval u v :=
+  surfaceDersA36_true pu pv Uu Uv su sv P κu κv u v d j order k l hpu hpv hκu hκv hlen hP hmu hmv hspu hspv hk hl
+
+/-- **Rational surfaces with the default evaluator as coded** (`SurfaceEvaluatorRational.derivatives`: A3.6 as coded
+    on the homogeneous net, then A4.4): the returned vectors solve the Leibniz system whose data are the true mixed
+    partial derivatives of the numerator coordinate `A_c` and of the weight function `w`, whenever `w(u,v) ≠ 0`. -/
+theorem rational_surface_derivatives_as_coded_leibniz (pu pv : ℕ) (Uu Uv : ℕ → F) (su sv : ℕ)
+    (P : List (List F)) (κu κv : ℕ) (u v : F) (d c order k l : ℕ)
+    (hpu : pu ≤ κu) (hpv : pv ≤ κv) (hκu : κu < su) (hκv : κv < sv) (hlen : P.length = su * sv)
+    (hP : NetOk (d+1) P)
+    (hmu : Monotone Uu) (hmv : Monotone Uv) (hspu : Uu κu < Uu (κu+1)) (hspv : Uv κv < Uv (κv+1))
+    (hw0 : (surfSpanPoly pu pv Uu Uv sv P κu κv d).evalEval u v ≠ 0)
+    (hk : k ≤ order) (hl : l ≤ order) (hc : c < d) :
+    ∑ i ∈ Finset.range (k+1), ∑ j ∈ Finset.range (l+1),
+      (Nat.choose k i : F) * (Nat.choose l j : F)
+        * (pderivU^[i] (pderivV^[j] (surfSpanPoly pu pv Uu Uv sv P κu κv d))).evalEval u v
+        * ((((ratSurfaceDers (surfaceDersA36 pu pv Uu Uv sv P κu κv u v order) order).getD (k - i) []).getD
+              (l - j) []).getD c 0)
+      = (pderivU^[k] (pderivV^[l] (surfSpanPoly pu pv Uu Uv sv P κu κv c))).evalEval u v :=
+  ratSurfaceDersA36_true pu pv Uu Uv su sv P κu κv u v d c order k l hpu hpv hκu hκv hlen hP hmu hmv hspu hspv
+    hw0 hk hl hc
+
+/-- **A3.7 as coded assigns every entry that A3.8 reads** (`helpers.surface_deriv_cpts`, model
+    `surfaceDerivCptsA37`, the 4-D table `PKL` initialised with `None`; stream `sdcpts37`).  On the window of a span
+    pair the entries `PKL[k][l][j][i]` with `k ≤ min(pu, order)`, `l ≤ min(order - k, min(pv, order))`, `j ≤ pu - k`,
+    `i ≤ pv - l` – the ones `SurfaceEvaluator2.derivatives` multiplies – are assigned (not `None`) and have the
+    dimension of the control points.  (With the loop bound `range(0, du)` of the pinned tree, finding F-02, the
+    rows `k = du`, `l ≥ 1` stayed `None`.) -/
+theorem a37_as_coded_assigns_what_a38_reads (pu pv : ℕ) (Uu Uv : ℕ → F) (su sv : ℕ) (P : List (List F)) (κu κv : ℕ)
+    (d order k l j i : ℕ)
+    (hpu : pu ≤ κu) (hpv : pv ≤ κv) (hκu : κu < su) (hκv : κv < sv) (hlen : P.length = su * sv) (hP : NetOk d P)
+    (hk : k ≤ min pu order) (hl : l ≤ min (order - k) (min pv order)) (hj : j ≤ pu - k) (hi : i ≤ pv - l) :
+    ∃ X, (surfaceDerivCptsA37 pu pv Uu Uv su sv P (κu - pu) κu (κv - pv) κv order).get k l j i = some X ∧
+      X.length = d :=
+  a37_window_assigned pu pv Uu Uv su sv P κu κv d order k l j i hpu hpv hκu hκv hlen hP hk hl hj hi
+
+/-- **A3.7 + A3.8 as coded are the triangular table** (`SurfaceEvaluator2.derivatives`, model `surfaceDersA38`, on
+    top of `surfaceDerivCptsA37` and `basis_function_all`; `dd = min(deriv_order - k, d[1])`; stream `sders38`): on a
+    non-empty span pair of sorted knot vectors the returned table is exactly `surfaceDersAt … true`. -/
+theorem a38_as_coded_is_the_triangular_table (pu pv : ℕ) (Uu Uv : ℕ → F) (su sv : ℕ) (P : List (List F))
+    (κu κv : ℕ) (u v : F) (d order : ℕ)
+    (hpu : pu ≤ κu) (hpv : pv ≤ κv) (hκu : κu < su) (hκv : κv < sv) (hlen : P.length = su * sv) (hP : NetOk d P)
+    (hmu : Monotone Uu) (hmv : Monotone Uv) (hspu : Uu κu < Uu (κu+1)) (hspv : Uv κv < Uv (κv+1)) :
+    surfaceDersA38 pu pv Uu Uv su sv P κu κv u v order = surfaceDersAt pu pv Uu Uv sv P κu κv u v order true :=
+  surfaceDersA38_eq pu pv Uu Uv su sv P κu κv u v d order hpu hpv hκu hκv hlen hP hmu hmv hspu hspv
+
+/-- … hence every entry `[k][l]` with `k + l ≤ order` returned by A3.7 + A3.8 as coded is the true mixed partial
+    derivative (the control points `PKL[k][l]` are the `l`-fold `v`-differences of the `k`-fold `u`-differences of the
+    net, and summing them against the basis functions of degrees `(pu - k, pv - l)` differentiates the span). -/
+theorem a38_as_coded_is_true_mixed_derivative (pu pv : ℕ) (Uu Uv : ℕ → F) (su sv : ℕ) (P : List (List F))
+    (κu κv : ℕ) (u v : F) (d j order k l : ℕ)
+    (hpu : pu ≤ κu) (hpv : pv ≤ κv) (hκu : κu < su) (hκv : κv < sv) (hlen : P.length = su * sv) (hP : NetOk d P)
+    (hmu : Monotone Uu) (hmv : Monotone Uv) (hspu : Uu κu < Uu (κu+1)) (hspv : Uv κv < Uv (κv+1))
+    (hkl : k + l ≤ order) :
+    (((surfaceDersA38 pu pv Uu Uv su sv P κu κv u v order).getD k []).getD l []).getD j 0
+      = (pderivU^[k] (pderivV^[l] (surfSpanPoly pu pv Uu Uv sv P κu κv j))).evalEval u v :=
+  surfaceDersA38_true pu pv Uu Uv su sv P κu κv u v d j order k l hpu hpv hκu hκv hlen hP hmu hmv hspu hspv hkl
+
+/-- … and the entries with `k + l > order` keep the zero vector `SKL` was initialised with. -/
+theorem a38_as_coded_rest_zero (pu pv : ℕ) (Uu Uv : ℕ → F) (su sv : ℕ) (P : List (List F))
+    (κu κv : ℕ) (u v : F) (d order k l : ℕ)
+    (hpu : pu ≤ κu) (hpv : pv ≤ κv) (hκu : κu < su) (hκv : κv < sv) (hlen : P.length = su * sv) (hP : NetOk d P)
+    (hmu : Monotone Uu) (hmv : Monotone Uv) (hspu : Uu κu < Uu (κu+1)) (hspv : Uv κv < Uv (κv+1))
+    (hk : k ≤ order) (hl : l ≤ order) (hkl : order < k + l) :
+    ((surfaceDersA38 pu pv Uu Uv su sv P κu κv u v order).getD k []).getD l [] = vzero (dimOf P) :=
+  surfaceDersA38_rest_zero pu pv Uu Uv su sv P κu κv u v d order k l hpu hpv hκu hκv hlen hP hmu hmv hspu hspv
+    hk hl hkl
+
+/-! ### hodograph constructors, tangent, normal -/
+
+/-- **The hodograph of a curve is its first derivative** (`operations.derivative_curve`, model `derivativeCurve`:
+    degree `p - 1`, knot vector `U[1:-1]`, control points `PK[1]` of `curve_deriv_cpts` on the whole polygon; stream
+    `hodoc`).  Evaluating the constructed curve at `u` on the span `κ - 1` (knot `i` of `U[1:-1]` is knot `i + 1` of `U`)
+    gives, in every coordinate, the derivative of the span polynomial of the original curve on the span `κ`.
+    Guard of the code (not of the theorem): `curve_deriv_cpts` raises `ZeroDivisionError` when some
+    `U[i+p+1] = U[i+1]`, `i < n - 1` (an interior knot of multiplicity `p + 1`); the constructor refuses rational curves. -/
+theorem hodograph_curve_is_first_derivative (p : ℕ) (U : List F) (P : List (List F)) (κ : ℕ) (u : F) (d j : ℕ)
+    (hp1 : 1 ≤ p) (hp : p ≤ κ) (hκ : κ < P.length) (hU : U.length = P.length + p + 1) (hP : NetOk d P)
+    (hm : Monotone (fnOf U)) (hspan : fnOf U κ < fnOf U (κ+1)) :
+    (curvePointAt (derivativeCurve p U P).1 (fnOf (derivativeCurve p U P).2.1) (derivativeCurve p U P).2.2
+        (κ - 1) u).getD j 0
+      = eval u (derivative (spanPoly p (fnOf U) P κ j)) :=
+  hodograph_true p U P κ u d j hp1 hp hκ hU hP hm hspan
+
+/-- The span that the library's own search (`find_span_linear`) finds on the hodograph's data is the span of the
+    original curve minus one – for every parameter. -/
+theorem hodograph_curve_span_is_shifted (p : ℕ) (U : List F) (n : ℕ) (u : F) (hp1 : 1 ≤ p) (hpn : p + 1 ≤ n)
+    (hU : U.length = n + p + 1) :
+    findSpanLinear (p - 1) (fnOf (kvInner U)) (n - 1) u = findSpanLinear p (fnOf U) n u - 1 :=
+  hodograph_span p U n u hp1 hpn hU
+
+/-- … so the hodograph evaluated the way the library evaluates any curve (`curvePoint`: span search, A2.2, A3.1)
+    is the first derivative of the original curve on the span its search finds, whenever that span is non-empty
+    (always, except at the right end of the domain where the search returns the last span). -/
+theorem hodograph_curve_evaluated_is_first_derivative (p : ℕ) (U : List F) (P : List (List F)) (u : F) (d j : ℕ)
+    (hp1 : 1 ≤ p) (hpn : p + 1 ≤ P.length) (hU : U.length = P.length + p + 1) (hP : NetOk d P)
+    (hm : Monotone (fnOf U)) (hlo : fnOf U p ≤ u)
+    (hspan : fnOf U (findSpanLinear p (fnOf U) P.length u) < fnOf U (findSpanLinear p (fnOf U) P.length u + 1)) :
+    (curvePoint (derivativeCurve p U P).1 (fnOf (derivativeCurve p U P).2.1) (derivativeCurve p U P).2.2 u).getD j 0
+      = eval u (derivative (spanPoly p (fnOf U) P (findSpanLinear p (fnOf U) P.length u) j)) :=
+  hodograph_curvePoint_true p U P u d j hp1 hpn hU hP hm hlo hspan
+
+/-- **The three surfaces of `derivative_surface` are `∂S/∂u`, `∂S/∂v`, `∂²S/∂u∂v`** (model `derivativeSurface`:
+    `pkl = surface_deriv_cpts(…, rs=(0, su-1), ss=(0, sv-1), deriv_order=2)` as coded, the nets `pkl[1][0]`, `pkl[0][1]`,
+    `pkl[1][1]` without their padding, degrees lowered and knot vectors `[1:-1]` in the differentiated directions;
+    stream `hodos`).  Each, evaluated at `(u, v)` on the correspondingly shifted span pair, gives the partial derivative
+    of the bivariate span polynomial of the original surface.  Guard of the code (not of the theorem):
+    `ZeroDivisionError` when an interior knot has multiplicity ≥ the degree (finding F-02b: second-order control points
+    are computed although not needed); rational surfaces are refused. -/
+theorem hodograph_surfaces_are_partial_derivatives (pu pv : ℕ) (Uu Uv : List F) (su sv : ℕ) (P : List (List F))
+    (κu κv : ℕ) (u v : F) (d c : ℕ) (hpu1 : 1 ≤ pu) (hpv1 : 1 ≤ pv)
+    (hpu : pu ≤ κu) (hpv : pv ≤ κv) (hκu : κu < su) (hκv : κv < sv) (hlen : P.length = su * sv) (hP : NetOk d P)
+    (hUu : Uu.length = su + pu + 1) (hUv : Uv.length = sv + pv + 1)
+    (hmu : Monotone (fnOf Uu)) (hmv : Monotone (fnOf Uv))
+    (hspu : fnOf Uu κu < fnOf Uu (κu+1)) (hspv : fnOf Uv κv < fnOf Uv (κv+1)) :
+    (surfDataPointAt (derivativeSurface pu pv Uu Uv su sv P).1 (κu - 1) κv u v).getD c 0
+        = (pderivU (surfSpanPoly pu pv (fnOf Uu) (fnOf Uv) sv P κu κv c)).evalEval u v ∧
+    (surfDataPointAt (derivativeSurface pu pv Uu Uv su sv P).2.1 κu (κv - 1) u v).getD c 0
+        = (pderivV (surfSpanPoly pu pv (fnOf Uu) (fnOf Uv) sv P κu κv c)).evalEval u v ∧
+    (surfDataPointAt (derivativeSurface pu pv Uu Uv su sv P).2.2 (κu - 1) (κv - 1) u v).getD c 0
+        = (pderivU (pderivV (surfSpanPoly pu pv (fnOf Uu) (fnOf Uv) sv P κu κv c))).evalEval u v :=
+  derivativeSurface_true pu pv Uu Uv su sv P κu κv u v d c hpu1 hpv1 hpu hpv hκu hκv hlen hP hUu hUv hmu hmv hspu hspv
+
+/-- `operations.tangent(curve, u, normalize=False)` (`tangent_curve_single`: `ders = obj.derivatives(u, 1)`,
+    returned `(ders[0], ders[1])`; default evaluator = A3.2 as coded; stream `tanc`) is (curve point, first derivative). -/
+theorem tangent_curve_is_point_and_first_derivative (p : ℕ) (U : ℕ → F) (P : List (List F)) (κ : ℕ) (u : F) (d j : ℕ)
+    (hp : p ≤ κ) (hκ : κ < P.length) (hP : NetOk d P) (hm : Monotone U) (hspan : U κ < U (κ+1)) :
+    (tangentCurve (curveDersA32 p U P κ u 1)).1.getD j 0 = eval u (spanPoly p U P κ j) ∧
+    (tangentCurve (curveDersA32 p U P κ u 1)).2.getD j 0 = eval u (derivative (spanPoly p U P κ j)) :=
+  tangentCurve_true p U P κ u d j hp hκ hP hm hspan
+
+/-- `operations.tangent(surface, (u, v), normalize=False)` (`tangent_surface_single`: `skl = obj.derivatives(u, v, 1)`,
+    returned `(skl[0][0], skl[1][0], skl[0][1])`; default evaluator = A3.6 as coded; stream `tans`) is
+    (surface point, `∂S/∂u`, `∂S/∂v`). -/
+theorem tangent_surface_is_point_and_partials (pu pv : ℕ) (Uu Uv : ℕ → F) (su sv : ℕ) (P : List (List F))
+    (κu κv : ℕ) (u v : F) (d j : ℕ)
+    (hpu : pu ≤ κu) (hpv : pv ≤ κv) (hκu : κu < su) (hκv : κv < sv) (hlen : P.length = su * sv) (hP : NetOk d P)
+    (hmu : Monotone Uu) (hmv : Monotone Uv) (hspu : Uu κu < Uu (κu+1)) (hspv : Uv κv < Uv (κv+1)) :
+    (tangentSurface (surfaceDersA36 pu pv Uu Uv sv P κu κv u v 1)).1.getD j 0
+      = (surfSpanPoly pu pv Uu Uv sv P κu κv j).evalEval u v ∧
+    (tangentSurface (surfaceDersA36 pu pv Uu Uv sv P κu κv u v 1)).2.1.getD j 0
+      = (pderivU (surfSpanPoly pu pv Uu Uv sv P κu κv j)).evalEval u v ∧
+    (tangentSurface (surfaceDersA36 pu pv Uu Uv sv P κu κv u v 1)).2.2.getD j 0
+      = (pderivV (surfSpanPoly pu pv Uu Uv sv P κu κv j)).evalEval u v :=
+  tangentSurface_true pu pv Uu Uv su sv P κu κv u v d j hpu hpv hκu hκv hlen hP hmu hmv hspu hspv
+
+/-- `operations.normal(surface, (u, v), normalize=False)` (`normal_surface_single`; stream `nrms`) of a 3-D surface
+    returns the surface point and the cross product `∂S/∂u × ∂S/∂v` of the TRUE first partial derivatives
+    (`Su c`, `Sv c` name their coordinates), and that vector is orthogonal to both. -/
+theorem normal_surface_is_cross_product_of_partials (pu pv : ℕ) (Uu Uv : ℕ → F) (su sv : ℕ) (P : List (List F))
+    (κu κv : ℕ) (u v : F)
+    (hpu : pu ≤ κu) (hpv : pv ≤ κv) (hκu : κu < su) (hκv : κv < sv) (hlen : P.length = su * sv)
+    (hP : NetOk 3 P) (hmu : Monotone Uu) (hmv : Monotone Uv) (hspu : Uu κu < Uu (κu+1)) (hspv : Uv κv < Uv (κv+1))
+    (Su Sv : ℕ → F)
+    (hSu : ∀ c, Su c = (pderivU (surfSpanPoly pu pv Uu Uv sv P κu κv c)).evalEval u v)
+    (hSv : ∀ c, Sv c = (pderivV (surfSpanPoly pu pv Uu Uv sv P κu κv c)).evalEval u v) :
+    ∃ pt n, normalSurface (surfaceDersA36 pu pv Uu Uv sv P κu κv u v 1) = some (pt, n) ∧
+      (∀ c, pt.getD c 0 = (surfSpanPoly pu pv Uu Uv sv P κu κv c).evalEval u v) ∧
+      n = [Su 1 * Sv 2 - Su 2 * Sv 1, Su 2 * Sv 0 - Su 0 * Sv 2, Su 0 * Sv 1 - Su 1 * Sv 0] ∧
+      n.getD 0 0 * Su 0 + n.getD 1 0 * Su 1 + n.getD 2 0 * Su 2 = 0 ∧
+      n.getD 0 0 * Sv 0 + n.getD 1 0 * Sv 1 + n.getD 2 0 * Sv 2 = 0 :=
+  normalSurface_true pu pv Uu Uv su sv P κu κv u v hpu hpv hκu hκv hlen hP hmu hmv hspu hspv Su Sv hSu hSv
+
 end ordered
 
 /-! ### the hypotheses are satisfiable: a concrete rational surface
@@ -289,6 +497,40 @@ example : ((basisDers 2 exU 2 (1/3) 2).getD 1 []).getD 0 0 = eval (1/3) (derivat
 
 /-- A2.3 as coded on the witness knot vector: second derivatives of the three quadratic basis functions -/
 example : (basisFunsDersA23 2 exU 2 (1/3) 2).getD 2 [] = [2, -4, 2] := by decide +kernel
+
+/-- A3.6 as coded on the witness surface: the same table as the tensor formula … -/
+example : surfaceDersA36 2 1 exU exV 2 exP 2 1 (1/3) (1/2) 2 = surfaceDersAt 2 1 exU exV 2 exP 2 1 (1/3) (1/2) 2 false :=
+  a36_as_coded_is_the_tensor_formula 2 1 exU exV 3 2 exP 2 1 (1/3) (1/2) 4 2 (by omega) (by omega) (by omega) (by omega)
+    rfl exP_ok
+
+/-- … and A3.7 + A3.8 as coded: entry `[1][1]` (order 2) is the true mixed derivative, the non-zero vector below -/
+example :
+    (((surfaceDersA38 2 1 exU exV 3 2 exP 2 1 (1/3) (1/2) 2).getD 1 []).getD 1 []).getD 3 0
+      = (pderivU^[1] (pderivV^[1] (surfSpanPoly 2 1 exU exV 2 exP 2 1 3))).evalEval (1/3) (1/2) :=
+  a38_as_coded_is_true_mixed_derivative 2 1 exU exV 3 2 exP 2 1 (1/3) (1/2) 4 3 2 1 1
+    (by omega) (by omega) (by omega) (by omega) rfl exP_ok exU_mono exV_mono (by decide +kernel) (by decide +kernel)
+    (by omega)
+example : ((surfaceDersA38 2 1 exU exV 3 2 exP 2 1 (1/3) (1/2) 2).getD 1 []).getD 1 [] = [0, 0, 0, -2/3] := by
+  decide +kernel
+
+/-- the curve hodograph theorem, instantiated: quadratic plane curve with an interior knot, `u = 3/4` on the span 3 -/
+example :
+    (curvePointAt (derivativeCurve 2 hwU hwP).1 (fnOf (derivativeCurve 2 hwU hwP).2.1) (derivativeCurve 2 hwU hwP).2.2
+        (3 - 1) (3/4)).getD 1 0
+      = eval (3/4) (derivative (spanPoly 2 (fnOf hwU) hwP 3 1)) :=
+  hodograph_curve_is_first_derivative 2 hwU hwP 3 (3/4) 2 1 (by omega) (by omega) (by decide) rfl hwP_ok hwU_mono
+    (by decide +kernel)
+/-- … the hodograph is the degree-1 curve below, and its value there is the non-zero vector `(4, 5)` -/
+example : derivativeCurve 2 hwU hwP = (1, [0, 0, 1/2, 1, 1], [[4, 8], [4, -2], [4, 12]]) := by decide +kernel
+example : curvePoint 1 (fnOf [0, 0, 1/2, 1, 1]) [[4, 8], [4, -2], [4, 12]] (3/4 : ℚ) = [4, 5] := by decide +kernel
+
+/-- the surface hodograph theorem, instantiated (`3 × 4` biquadratic net, `(u, v) = (1/3, 3/4)`, coordinate 2) -/
+example :
+    (surfDataPointAt (derivativeSurface 2 2 hwUu hwUv 3 4 hwS).2.2 (2 - 1) (3 - 1) (1/3) (3/4)).getD 2 0
+      = (pderivU (pderivV (surfSpanPoly 2 2 (fnOf hwUu) (fnOf hwUv) 4 hwS 2 3 2))).evalEval (1/3) (3/4) :=
+  (hodograph_surfaces_are_partial_derivatives 2 2 hwUu hwUv 3 4 hwS 2 3 (1/3) (3/4) 3 2 (by omega) (by omega)
+    (by omega) (by omega) (by omega) (by omega) rfl hwS_ok rfl rfl hwUu_mono hwUv_mono
+    (by decide +kernel) (by decide +kernel)).2.2
 
 /-- normalisation: `[3, 4]` with magnitude `5` -/
 example : Lin.normSq ([3/5, 4/5] : List ℚ) = 1 :=
